@@ -1478,6 +1478,21 @@ func ruleNSKIP(p *Program, r *Reporter) {
 					r.Ob(id, funcName(g), "successful return after the validation pass", ret.Pos(), after, true,
 						ifs(after, "this successful return is only reached through the substitution/validation loop", "ExpandNamedUUIDs can return successfully without running its substitution pass at all: the tables and condition columns of the operations are then never validated and later code dereferences their missing schema"))
 				}
+				// blocks of the loop that obtain a table schema: the lookup itself, or a
+				// read of a memo of earlier lookups (a map whose values are table schemas)
+				obtain := map[*ssa.BasicBlock]bool{b: true}
+				for _, lb := range g.Blocks {
+					if !inLoopOf(h, lb) {
+						continue
+					}
+					for _, li := range lb.Instrs {
+						if lk, isLk := li.(*ssa.Lookup); isLk {
+							if mt, isM := lk.X.Type().Underlying().(*types.Map); isM && isNamed(mt.Elem(), repoMod+"/ovsdb", "TableSchema") {
+								obtain[lb] = true
+							}
+						}
+					}
+				}
 				for _, opv := range tableOps {
 					n++
 					skipped := false
@@ -1485,7 +1500,7 @@ func ruleNSKIP(p *Program, r *Reporter) {
 						if !inLoopOf(h, s) || s == h {
 							continue
 						}
-						if enumPathAvoiding(s, h, b, isOpLoad, opv) {
+						if enumPathAvoidingSet(s, h, obtain, isOpLoad, opv) {
 							skipped = true
 						}
 					}
